@@ -4,8 +4,11 @@
 //! Signature: C16/<sub-check>/<conversion incl. partial type>/<white-point parameter type>/<float>/
 //! <input class: black | near-black | negative-cone (an adapted cone response is negative: the sign
 //! branch of the compression) | regular>/<NaN | inf | finite-off | exact>. The lattice provenance of the
-//! colour (in-srgb, outside-srgb, xyz-cube, adopted-white, …) is the "class" field of the case. The viewing conditions of the first and of the worst failing case are in the
-//! case JSON (conditions are enumerated simplest first: D65, L_A = 40, Y_b = 0.2, Average, Auto).
+//! colour (in-srgb, outside-srgb, xyz-cube, adopted-white, …) is the "class" field of the case. The
+//! viewing conditions of the first and of the worst failing case are in the case JSON (conditions are
+//! enumerated simplest first: D65, L_A = 40, Y_b = 0.2, Average, Auto), and the set of condition
+//! classes (surround preset / segment, discounting auto / custom / clamped, L_A < 1) under which a
+//! signature failed is printed and written to the evidence note `failing-condition-classes`.
 use crate::oracle::{self, Cond64, Disc, RefCam, RefParams, Sur};
 use crate::subject::{Cam, Obs, Subject, WpSel, ATTR, PARTIALS, PART_IDX};
 use pv::fl::Fl;
@@ -13,8 +16,9 @@ use pv::report::fnum;
 use pv::{json, Collector, Value};
 use std::collections::{BTreeMap, BTreeSet};
 
-/// Tolerances (see TOL_NOTE). All are multiplied by the cancellation factor κ of the point
-/// (1 whenever the three adapted cone responses are positive, i.e. for every real colour near sRGB).
+/// Tolerances (see TOL_NOTE). The round-trip and forward tolerances are multiplied by the cancellation
+/// factor κ of the point (1 whenever the three adapted cone responses are positive, i.e. for every
+/// real colour near sRGB).
 pub struct Tol {
     /// round trip: ‖ΔXYZ‖∞ ≤ κ·(rt_rel·‖XYZ‖∞ + rt_abs), XYZ relative to white Y = 1
     pub rt_rel: f64,
